@@ -34,10 +34,17 @@ structure Key where
 
 /-- lines 1127-1151 of generate.rs: may a record written with key `r` serve a run with key `k`?
     (the stamp comparison is separate) -/
+def Selector.sameSet (a b : Selector) : Bool := a.isSuperset b && b.isSuperset a
+
+/-- with a partition the selection has to be the same one: a partition is a slice of the tuple sequence left *after*
+    selection (`C10.count_not_commute`), so a wider run's slice does not contain a narrower run's -/
+def partitionOk (r k : Key) : Bool :=
+  k.partition.isNone || (Selector.sameSet r.builders k.builders && Selector.sameSet r.apps k.apps)
+
 def keyValid (r k : Key) : Bool :=
   r.uuid == k.uuid && r.partition == k.partition && r.builders.isSuperset k.builders && r.apps.isSuperset k.apps
     && r.mode == k.mode && r.select == k.select && r.disable == k.disable && r.define == k.define
-    && k.namesKnown
+    && k.namesKnown && partitionOk r k
 
 inductive Ninja where
   | absent
